@@ -95,3 +95,66 @@ theorem foldl_dictSet_mem_of_distinct (abs : List Sig) (habs : KeysDistinct abs)
   rw [← this]; exact hy
 
 end Operon.Gates
+
+namespace Operon.Gates
+
+/-! ### innate immunity: the inflammation level is monotone in what matched (audit F2) -/
+
+theorem newLevel_mono (k : InflCuts) (t t' mx mx' n n' : Nat) (cool : Bool) (ht : t ≤ t') (hm : mx ≤ mx')
+    (hn : n ≤ n') : newLevel k t mx n cool ≤ newLevel k t' mx' n' cool := by
+  unfold newLevel lvlAcute lvlHigh lvlMedium lvlLow lvlNone
+  by_cases h1 : t ≥ k.acuteTotal ∨ mx ≥ k.acuteMax
+  · have h1' : t' ≥ k.acuteTotal ∨ mx' ≥ k.acuteMax := by omega
+    simp [h1, h1']
+  · by_cases h1' : t' ≥ k.acuteTotal ∨ mx' ≥ k.acuteMax
+    · simp only [h1, h1', if_true, if_false]; repeat' split
+      all_goals omega
+    · by_cases h2 : t ≥ k.highTotal ∨ mx ≥ k.highMax
+      · have h2' : t' ≥ k.highTotal ∨ mx' ≥ k.highMax := by omega
+        simp [h1, h1', h2, h2']
+      · by_cases h2' : t' ≥ k.highTotal ∨ mx' ≥ k.highMax
+        · simp only [h1, h1', h2, h2', if_true, if_false]; repeat' split
+          all_goals omega
+        · by_cases h3 : t ≥ k.medTotal ∨ n ≥ k.medCount
+          · have h3' : t' ≥ k.medTotal ∨ n' ≥ k.medCount := by omega
+            simp [h1, h1', h2, h2', h3, h3']
+          · by_cases h3' : t' ≥ k.medTotal ∨ n' ≥ k.medCount
+            · simp only [h1, h1', h2, h2', h3, h3', if_true, if_false]; repeat' split
+              all_goals omega
+            · by_cases h4 : n ≥ k.lowCount
+              · have h4' : n' ≥ k.lowCount := by omega
+                simp [h1, h1', h2, h2', h3, h3', h4, h4']
+              · by_cases h4' : n' ≥ k.lowCount
+                · simp only [h1, h1', h2, h2', h3, h3', h4, h4', if_true, if_false]; repeat' split
+                  all_goals omega
+                · simp [h1, h1', h2, h2', h3, h3', h4, h4']
+
+theorem sumLevels_filter_mono (p q : Sig → Bool) (l : List Sig) (h : ∀ x ∈ l, p x = true → q x = true) :
+    sumLevels (l.filter p) ≤ sumLevels (l.filter q) := by
+  induction l with
+  | nil => simp [sumLevels]
+  | cons x l ih =>
+    have ih' := ih (fun y hy => h y (List.mem_cons_of_mem _ hy))
+    simp only [List.filter_cons]
+    cases hp : p x with
+    | true =>
+      have hq := h x (by simp) hp
+      simp only [hq, if_true, sumLevels]; omega
+    | false =>
+      cases hq : q x with
+      | true => simp only [if_true, sumLevels, Bool.false_eq_true, if_false]; omega
+      | false => simpa using ih'
+
+/-- everything `c` sets off, `c'` sets off too: the matched patterns of `c'` dominate those of `c` in total
+    severity, maximum severity and number -/
+theorem matched_dominates (env : Env) (sigs : List Sig) (c c' : Str) (hk : KeepsHits env sigs c c') :
+    sumLevels (matched env sigs c) ≤ sumLevels (matched env sigs c') ∧
+    maxLevel (matched env sigs c) ≤ maxLevel (matched env sigs c') ∧
+    (matched env sigs c).length ≤ (matched env sigs c').length := by
+  refine ⟨sumLevels_filter_mono _ _ sigs hk, ?_, filter_length_le_of_imp _ _ sigs hk⟩
+  apply maxLevel_mono
+  intro s hs
+  rw [mem_matched] at hs ⊢
+  exact ⟨hs.1, hk s hs.1 hs.2⟩
+
+end Operon.Gates
